@@ -1425,8 +1425,12 @@ func scenBounceRestore(x *Ctx) {
 		return
 	}
 	var sawIS atomic.Int32
+	var ackd atomic.Bool
 	x.C.Net.AddRule(&simnet.Rule{Name: "watch-install", Match: func(m *mon.Msg, reply bool) bool {
-		if !reply && m.Kind == "IS" && m.To == f && m.Done && m.NBytes > 0 {
+		if reply && m.Kind == "IS" && m.To == f && m.RWritten > 0 {
+			ackd.Store(true) // the follower holds a first part of this transfer
+		}
+		if !reply && m.Kind == "IS" && m.To == f && m.Done && (m.NBytes > 0 || ackd.Load()) {
 			sawIS.Add(1) // the final chunk is on its way: the follower is about to restore
 		}
 		return false
@@ -1480,8 +1484,12 @@ func scenDisruptRestore(x *Ctx) {
 		return
 	}
 	var sawIS atomic.Int32
+	var ackd atomic.Bool
 	x.C.Net.AddRule(&simnet.Rule{Name: "watch-install", Match: func(m *mon.Msg, reply bool) bool {
-		if !reply && m.Kind == "IS" && m.To == f && m.Done && m.NBytes > 0 {
+		if reply && m.Kind == "IS" && m.To == f && m.RWritten > 0 {
+			ackd.Store(true)
+		}
+		if !reply && m.Kind == "IS" && m.To == f && m.Done && (m.NBytes > 0 || ackd.Load()) {
 			sawIS.Add(1)
 		}
 		return false
